@@ -3,6 +3,7 @@ package segment
 import (
 	"errors"
 	"fmt"
+	"github.com/klev-dev/klevdb/pkg/vhook"
 	"io"
 	"os"
 	"path/filepath"
@@ -154,10 +155,12 @@ func (s Segment) Recover(params index.Params) error {
 		if err := os.Rename(restore.Path, log.Path); err != nil {
 			return fmt.Errorf("restore log rename: %w", err)
 		}
+		vhook.FS("rename", restore.Path+" "+log.Path, 0)
 	} else {
 		if err := os.Remove(restore.Path); err != nil {
 			return fmt.Errorf("restore log delete: %w", err)
 		}
+		vhook.FS("remove", restore.Path, 0)
 	}
 
 	var corruptedIndex = false
@@ -178,6 +181,7 @@ func (s Segment) Recover(params index.Params) error {
 		if err := os.Remove(s.Index); err != nil {
 			return fmt.Errorf("restore index delete: %w", err)
 		}
+		vhook.FS("remove", s.Index, 0)
 		if indexVersion != index.VUnknown {
 			if err := index.Write(s.Index, s.Offset, indexVersion, params, restoreIndex); err != nil {
 				return fmt.Errorf("restore index write: %w", err)
@@ -296,11 +300,13 @@ func (s Segment) Migrate(mversion message.Version, iversion index.Version, param
 	case err != nil:
 		return fmt.Errorf("migrate index remove: %w", err)
 	}
+	vhook.FS("remove", s.Index, 0)
 
 	migratedPath := s.Log + ".migrate"
 	if err := os.Remove(migratedPath); err != nil && !errors.Is(err, os.ErrNotExist) {
 		return fmt.Errorf("migrate remove stale temp: %w", err)
 	}
+	vhook.FS("remove", migratedPath, 0)
 	migratedLog, err := message.OpenWriter(migratedPath, s.Offset, mversion)
 	if err != nil {
 		return fmt.Errorf("migrate open writer: %w", err)
@@ -340,6 +346,7 @@ func (s Segment) Migrate(mversion message.Version, iversion index.Version, param
 	if err := os.Rename(migratedLog.Path, s.Log); err != nil {
 		return fmt.Errorf("migrate log rename: %w", err)
 	}
+	vhook.FS("rename", migratedLog.Path+" "+s.Log, 0)
 	if err := index.Write(s.Index, s.Offset, iversion, params, migratedIndex); err != nil {
 		return fmt.Errorf("migrate index write: %w", err)
 	}
@@ -355,10 +362,12 @@ func (olds Segment) Rename(news Segment) error {
 	if err := os.Rename(olds.Log, news.Log); err != nil {
 		return fmt.Errorf("rename log rename: %w", err)
 	}
+	vhook.FS("rename", olds.Log+" "+news.Log, 0)
 
 	if err := os.Rename(olds.Index, news.Index); err != nil {
 		return fmt.Errorf("rename index rename: %w", err)
 	}
+	vhook.FS("rename", olds.Index+" "+news.Index, 0)
 
 	if err := news.syncDir(); err != nil {
 		return fmt.Errorf("rename sync dir: %w", err)
@@ -373,13 +382,16 @@ func (olds Segment) Override(news Segment) error {
 	if err := os.Remove(news.Index); err != nil && !errors.Is(err, os.ErrNotExist) {
 		return fmt.Errorf("override index delete: %w", err)
 	}
+	vhook.FS("remove", news.Index, 0)
 
 	if err := os.Rename(olds.Log, news.Log); err != nil {
 		return fmt.Errorf("override log rename: %w", err)
 	}
+	vhook.FS("rename", olds.Log+" "+news.Log, 0)
 	if err := os.Rename(olds.Index, news.Index); err != nil {
 		return fmt.Errorf("override index rename: %w", err)
 	}
+	vhook.FS("rename", olds.Index+" "+news.Index, 0)
 
 	if err := news.syncDir(); err != nil {
 		return fmt.Errorf("override sync dir: %w", err)
@@ -393,9 +405,11 @@ func (s Segment) Remove() error {
 	if err := os.Remove(s.Index); err != nil && !errors.Is(err, os.ErrNotExist) {
 		return fmt.Errorf("remove index delete: %w", err)
 	}
+	vhook.FS("remove", s.Index, 0)
 	if err := os.Remove(s.Log); err != nil {
 		return fmt.Errorf("remove log delete: %w", err)
 	}
+	vhook.FS("remove", s.Log, 0)
 	return nil
 }
 
